@@ -167,6 +167,21 @@ class Antisym:
                 return
             if m in ("unwrap", "reverse") and not n["args"]:
                 return self.check(n["recv"], sigma)
+            if m == "filter" and len(n["args"]) == 1:
+                # `.filter(|o| o.is_ne())` / is_eq: keeps or drops an ordering by a predicate that is invariant under
+                # reversal; the kept ordering is the receiver's
+                cl = unblock(n["args"][0])
+                body = unblock(cl["body"]) if cl.get("e") == "closure" else None
+                if body is not None and body.get("e") == "mcall" and body["m"] in ("is_ne", "is_eq") and not body["args"]:
+                    return self.check(n["recv"], sigma)
+                self.problems.append(("unrecognised", "filter with " + A.show(n["args"][0])[:50]))
+                return
+            if m in ("and_then", "map") and len(n["args"]) == 1 and unblock(n["args"][0]).get("e") == "closure":
+                # `X.and_then(|v| <cmp using v>)`: symmetric only if X is; otherwise the one-sided binding is the problem
+                if self.sym_expr(n["recv"], sigma):
+                    return self.check(unblock(n["args"][0])["body"], sigma)
+                self.problems.append(("asymmetric-binding", A.show(n["recv"])[:80]))
+                return
             if m in ("then", "then_with", "or", "or_else") and len(n["args"]) == 1:
                 self.check(n["recv"], sigma)
                 a = unblock(n["args"][0])
@@ -179,7 +194,7 @@ class Antisym:
                 if self.sym_expr(c["x"], sigma):
                     self.check(n["then"], sigma)
                 else:
-                    self.problems.append(("asymmetric-binding", A.show(c)[:80]))
+                    self.problems.append(("asymmetric-binding", A.show(c["x"])[:80]))
             else:
                 if not self.sym_expr(c, sigma):
                     self.problems.append(("asymmetric-condition", A.show(c)[:80]))
